@@ -745,10 +745,11 @@ var fuzzCompressors = map[[2]prefItem]kgo.Compressor{}
 func FuzzRoundTrip(f *testing.F) {
 	dec := kgo.DefaultDecompressor()
 	for i, x := range fuzzSeedPayloads() {
-		for kind := 1; kind <= 4; kind++ {
+		for kind := 0; kind < 4; kind++ { // sel%4: 0 gzip, 1 snappy, 2 lz4, 3 zstd
 			f.Add(x, byte(kind), int16(i), false)
+			f.Add(x, byte(kind), int16(7*i+3), false)
 		}
-		f.Add(x, byte(4), int16(3), true)
+		f.Add(x, byte(3), int16(3), true) // zstd first, gzip second, zstd disabled
 	}
 	f.Fuzz(func(t *testing.T, x []byte, sel byte, level int16, disable bool) {
 		fuzzRoundTripOne(t, dec, x, sel, level, disable)
@@ -756,14 +757,22 @@ func FuzzRoundTrip(f *testing.F) {
 }
 
 func fuzzRoundTripOne(t testing.TB, dec kgo.Decompressor, x []byte, sel byte, level int16, disable bool) {
-	first := prefItem{Kind: 1 + int(sel)%4, SetLevel: level != 0, Level: int(level)}
-	if first.Kind == 3 && level > 0 && level <= 9 {
-		first.Level = 1 << (8 + uint(level)) // reach the valid lz4 levels too
+	// The level selects from the codec's level pool (valid levels, edges, far outside), so
+	// the set of distinct compressors is small and every one of them is built once per
+	// worker process. The fuzzing engine kills a worker whose single execution exceeds 10 s
+	// of wall time and reports that as a failure; building encoders per execution makes
+	// that reachable on a busy machine. For the same reason zstd's "best" level (4: tens of
+	// megabytes of tables to clear whenever the encoder pool was emptied by a GC cycle) is
+	// left to TestRoundTrip, which has no watchdog.
+	first := prefItem{Kind: 1 + int(sel)%4}
+	if level != 0 {
+		pool := levelPool[first.Kind]
+		first.SetLevel, first.Level = true, pool[int(uint16(level))%len(pool)]
+		if first.Kind == 4 && first.Level == 4 {
+			first.Level = 3
+		}
 	}
 	prefs := []prefItem{first, {Kind: 1 + int(sel>>2)%4}}
-	// compressors are kept per preference list: building a zstd encoder per execution
-	// costs megabytes of cleared tables, and the fuzzing engine treats an execution
-	// that is slow on a busy machine (10 s) as a crash
 	key := [2]prefItem{prefs[0], prefs[1]}
 	comp := fuzzCompressors[key]
 	if comp == nil {
@@ -772,9 +781,7 @@ func fuzzRoundTripOne(t testing.TB, dec kgo.Decompressor, x []byte, sel byte, le
 		if err != nil || comp == nil {
 			t.Fatalf("DefaultCompressor(%v) = %v, %v", prefs, comp, err)
 		}
-		if len(fuzzCompressors) < 256 {
-			fuzzCompressors[key] = comp
-		}
+		fuzzCompressors[key] = comp
 	}
 	var flags []kgo.CompressFlag
 	if disable {
